@@ -38,6 +38,11 @@ type c05Case struct {
 	Frames     int     `json:"frames"`
 	Class      string  `json:"class"`
 	CSeed      uint64  `json:"cseed"`
+	// Pre: a call made on the same codec instance right before the judged one.  "lossybag": Encode
+	// with a generic parameter bag that is allowed to lose data (rate target, no final lossless
+	// layer); "defmod": the same settings written into the object GetDefaultParameters() returned,
+	// then an Encode with it; "decode": a Decode of an unrelated stream.  Its own result is not judged.
+	Pre string `json:"pre,omitempty"`
 }
 
 type c05 struct{}
@@ -47,7 +52,7 @@ func init() { register(c05{}) }
 func (c05) ID() string { return "C05" }
 func (c05) Rule() string {
 	return "registry codec of .90 / .92: Encode then Decode through the harness PixelData; every decoded frame byte-equal to its source. Domain guard: parameters nil, or AppendLosslessLayer=true, or (Rate=0 and TargetRatio=0); other objects are counted out-of-domain. " +
-		"cases: (small) every size up to 6x6 with nil/default parameters; (grid) widths 1..40 x heights 1..80 with rotating parameter objects (typed and generic carrying the same keys): Rate, RateLevels ladders (default, descending sub-ladder, single level, all <= Rate), TargetRatio, NumLayers 1..10, PCRD, NumLevels 0..6, progression 0..4, MCT; (rand) sizes up to 600; (norate) 48..247 square-ish noise images with AppendLosslessLayer=false, Rate=0, TargetRatio=0 through generic and typed objects. " +
+		"cases: (small) every size up to 6x6 with nil/default parameters; (grid) widths 1..40 x heights 1..80 with rotating parameter objects (typed and generic carrying the same keys): Rate, RateLevels ladders (default, descending sub-ladder, single level, all <= Rate), TargetRatio, NumLayers 1..10, PCRD, NumLevels 0..6, progression 0..4, MCT; (rand) sizes up to 600; (gain) three-component frames of two saturated complementary colours in the sign pattern of one 5/3 analysis filter (largest legal wavelet coefficients), default and typed parameters with the colour transform; (after) default parameters right after an Encode on the same instance with a lossy-capable generic bag / a modified GetDefaultParameters() object / a Decode; (norate) 48..247 square-ish noise images with AppendLosslessLayer=false, Rate=0, TargetRatio=0 through generic and typed objects. " +
 		"non-trivial: in-domain, encoder accepted, all frames compared; distinct = distinct descriptor"
 }
 func (c05) Assumptions() []string {
@@ -174,6 +179,43 @@ func (c05) Build(tier string, seed uint64) []any {
 		}
 		cs = append(cs, c)
 	}
+	// (gain) saturated complementary colours in the sign pattern of one analysis filter: wavelet
+	// coefficients at the top of (and, after the colour transform, beyond) the range the QCD
+	// exponents describe; default parameters and typed objects with the colour transform on
+	nGain := 60
+	if th {
+		nGain = 600
+	}
+	for i := 0; i < nGain; i++ {
+		r := gen.Sub(seed, "C05", "gain", i)
+		c := &c05Case{Gen: "gain", W: 12 + r.Intn(120), H: 12 + r.Intn(120)}
+		if i%3 == 0 {
+			c.W, c.H = 16*(1+r.Intn(5)), 16*(1+r.Intn(5))
+		}
+		randC05Frame(r, c)
+		randC05Params(r, c)
+		c.PKind = gen.Pick(r, "nil", "default", "typed", "generic")
+		c.Append, c.MCT = true, true
+		c.SPP, c.Frames = gen.Pick(r, 3, 3, 3, 1), 1
+		c.Class = "gainmax"
+		cs = append(cs, c)
+	}
+	// (after) default parameters right after a call that was allowed to lose data, on the same
+	// registered instance: what one caller configured must not become another caller's defaults
+	nAfter := 24
+	if th {
+		nAfter = 240
+	}
+	for i := 0; i < nAfter; i++ {
+		r := gen.Sub(seed, "C05", "after", i)
+		c := &c05Case{Gen: "after", W: 40 + r.Intn(120), H: 40 + r.Intn(120)}
+		randC05Frame(r, c)
+		randC05Params(r, c)
+		c.PKind = gen.Pick(r, "nil", "default")
+		c.Pre = gen.Pick(r, "lossybag", "defmod", "lossybag", "defmod", "decode")
+		c.Class, c.Frames = "noise", 1
+		cs = append(cs, c)
+	}
 	for i := 0; i < nRand; i++ {
 		r := gen.Sub(seed, "C05", "rand", i)
 		c := &c05Case{Gen: "rand", W: 1 + r.Intn(600), H: 1 + r.Intn(600)}
@@ -245,6 +287,10 @@ func (c05) Exec(d any) mon.Result {
 		frames = append(frames, b)
 		keep = append(keep, append([]byte(nil), b...))
 	}
+	if c.Pre != "" {
+		c05Pre(cd, c)
+		res.AddFeat("pre_"+c.Pre, 1)
+	}
 	src := NewPD(info, frames...)
 	enc := NewPD(info)
 	if err := cd.Encode(src, enc, c.parameters(cd)); err != nil {
@@ -280,4 +326,35 @@ func (c05) Exec(d any) mon.Result {
 		}
 	}
 	return res
+}
+
+// c05Pre makes the unjudged call of c.Pre on the codec instance cd.
+func c05Pre(cd dcodec.Codec, c *c05Case) {
+	defer func() { _ = recover() }() // panics are C08 / C17 matters
+	r := gen.New(gen.Mix(c.CSeed, 0x9e37))
+	w, h := 48+r.Intn(40), 48+r.Intn(40)
+	info := FrameInfo(w, h, 8, 8, 1, 0, 0)
+	px := gen.PackN(gen.Content(r, "noise", w, h, 1, 8, 2), 1)
+	set := func(p dcodec.Parameters) {
+		p.SetParameter("rate", 4000)
+		p.SetParameter("appendLosslessLayer", false)
+		p.SetParameter("numLayers", 1)
+		p.SetParameter("numLevels", 1+r.Intn(3))
+		p.SetParameter("allowMCT", false)
+	}
+	switch c.Pre {
+	case "lossybag":
+		p := dcodec.NewBaseParameters()
+		set(p)
+		_ = cd.Encode(NewPD(info, px), NewPD(info), p)
+	case "defmod":
+		p := cd.GetDefaultParameters()
+		set(p)
+		_ = cd.Encode(NewPD(info, px), NewPD(info), p)
+	case "decode":
+		enc := NewPD(info)
+		if cd.Encode(NewPD(info, px), enc, nil) == nil {
+			_ = cd.Decode(NewPD(info, enc.Frames...), NewPD(info), nil)
+		}
+	}
 }
